@@ -1041,6 +1041,40 @@ def f_contextmanager():
     return inner, deep, path, log, tok, e
 
 
+class _Reg:
+    registry = {}
+    tag = None
+
+    def __init_subclass__(cls, tag=None, **kwargs):
+        super().__init_subclass__(**kwargs)
+        if tag is not None:
+            cls.tag = tag
+            _Reg.registry[tag] = cls
+
+    @classmethod
+    def pick(cls, tag):
+        return cls.registry[tag]
+
+    def name(self):
+        return type(self).__name__
+
+
+class _RegA(_Reg, tag='0'):
+    pass
+
+
+class _RegB(_Reg, tag='10'):
+    pass
+
+
+class _RegB2(_RegB):
+    pass
+
+
+def f_init_subclass():
+    return sorted(_Reg.registry), _Reg.pick('10')().name(), _RegA.tag, _RegB2.tag, _Reg.tag, _Reg.pick('0') is _RegA
+
+
 def f_str_bits():
     s = bin(0b101101)[2:]
     return s, s.zfill(8), int(s[::-1], 2), s.count('1'), s.rfind('1'), s[:3] + '0' * 2, '{:08b}'.format(5), f'{5:08b}'[-3:], ''.join('1' if c == '0' else '0' for c in s)
